@@ -1,11 +1,33 @@
 import NflowsModel.Core.Driver
-/-! Core/DriverOps — top-level dispatch of the line protocol (precision-generic ops and discrete ops). -/
+import NflowsModel.Core.Ops.C01
+import NflowsModel.Core.Ops.C02
+import NflowsModel.Core.Ops.C03
+import NflowsModel.Core.Ops.C04
+import NflowsModel.Core.Ops.C05
+import NflowsModel.Core.Ops.C06
+import NflowsModel.Core.Ops.C07
+import NflowsModel.Core.Ops.C08
+import NflowsModel.Core.Ops.C10
+import NflowsModel.Core.Ops.C11
+import NflowsModel.Core.Ops.C12
+import NflowsModel.Core.Ops.C13
+import NflowsModel.Core.Ops.C14
+import NflowsModel.Core.Ops.C15
+import NflowsModel.Core.Ops.C16
+import NflowsModel.Core.Ops.C17
+import NflowsModel.Core.Ops.C18
+import NflowsModel.Core.Ops.C19
+import NflowsModel.Core.Ops.C20
+/-! Core/DriverOps — top-level dispatch of the line protocol: per-property handlers first, then the
+    precision-generic spline op. -/
 namespace NF
 
-def dispatchDiscrete (r : Req) : Option Resp := none
+def handlers : List (Req → Option Resp) :=
+  [handleC01, handleC02, handleC03, handleC04, handleC05, handleC06, handleC07, handleC08, handleC10, handleC11,
+   handleC12, handleC13, handleC14, handleC15, handleC16, handleC17, handleC18, handleC19, handleC20]
 
 def dispatchAll (r : Req) : Resp :=
-  match dispatchDiscrete r with
+  match handlers.findSome? (fun h => h r) with
   | some x => x
   | none => if r.prec == "f32" then dispatchG float32X r else dispatchG floatX r
 
